@@ -16,9 +16,11 @@ oracle (implementation only):
   integer / colour / URI built by construction), unknown names never valid, block/rule/sheet conjunction,
   validation on/off at parser / sheet / declaration level leaves DOM and cssText identical.
 """
+import contextlib
 import json
 import os
 import re
+import time
 
 from lib.framework import Check, enc, time_limit, TimeLimit, VERIF
 from gen import c13_profiles, relib
@@ -392,21 +394,60 @@ class C13(Check):
         self.kwspec = load_keyword_spec()
 
     # ------------------------------------------------------------------------------------------
+    ORACLES = ('oracle_numbers_prefs', 'oracle_moved_properties', 'oracle_grammar',
+               'oracle_spelling_roundtrip_paths', 'oracle_annotates', 'oracle_unicode_fold')
+
     def run(self, ctx):
         self.setup(ctx)
+        self.salt = getattr(self, 'salt', '')
         saved_default = self.P._defaultProfiles
         try:
-            self.run_corpus(ctx)
-            self.corr_acc(ctx)
-            self.corr_vwp(ctx)
-            self.corr_props_and_sheets(ctx)
-            self.oracle_spelling_roundtrip_paths(ctx)
-            self.oracle_grammar(ctx)
-            self.oracle_annotates(ctx)
-            self.corr_valid_only(ctx)
-            self.oracle_unicode_fold(ctx)
+            for name in ('run_corpus', 'corr_acc', 'corr_vwp', 'corr_props_and_sheets', 'oracle_numbers_prefs',
+                         'oracle_moved_properties', 'oracle_spelling_roundtrip_paths', 'oracle_grammar',
+                         'oracle_annotates', 'corr_valid_only', 'oracle_unicode_fold'):
+                ctx.phase(getattr(self, name), ctx)
+                self.P._defaultProfiles = saved_default
         finally:
             self.P._defaultProfiles = saved_default
+
+    def search(self, ctx):
+        """an obligation or the correspondence broke and the run produced no failing input: repeat the
+        implementation-side oracles with fresh random streams for at most ~2 minutes"""
+        ctx.search_mode = True
+        t0 = time.time()
+        saved_default = self.P._defaultProfiles
+        try:
+            for rnd in range(1, 40):
+                self.salt = '/search%d' % rnd
+                for name in self.ORACLES + ('corr_props_and_sheets',):
+                    if ctx.violations or time.time() - t0 > 100:
+                        return
+                    ctx.phase(getattr(self, name), ctx)
+                    self.P._defaultProfiles = saved_default
+        finally:
+            self.salt = ''
+            self.P._defaultProfiles = saved_default
+            ctx.notes['search_seconds'] = round(time.time() - t0, 1)
+
+    def rng(self, ctx, tag):
+        return ctx.sub_rng(tag + getattr(self, 'salt', ''))
+
+    @contextlib.contextmanager
+    def prefs(self, setting):
+        """serializer preferences for the duration of the block; always restored"""
+        pr = self.cu.ser.prefs
+        saved = dict(pr.__dict__)
+        try:
+            pr.useDefaults()
+            if setting == 'minified':
+                pr.useMinified()
+            else:
+                for k, v in setting.items():
+                    setattr(pr, k, v)
+            yield
+        finally:
+            pr.__dict__.clear()
+            pr.__dict__.update(saved)
 
     # -- helpers ---------------------------------------------------------------------------------
     def parse(self, css, **kw):
@@ -475,7 +516,7 @@ class C13(Check):
 
     # -- correspondence: patterns ------------------------------------------------------------------
     def corr_acc(self, ctx):
-        rng = ctx.sub_rng('acc')
+        rng = self.rng(ctx, 'acc')
         per = ctx.n(80, 1400)
         lines, exp = [], []
         for i, pn, name, ast_ in self.entries:
@@ -512,7 +553,7 @@ class C13(Check):
 
     # -- correspondence: validate / validateWithProfile ---------------------------------------------
     def corr_vwp(self, ctx):
-        rng = ctx.sub_rng('vwp')
+        rng = self.rng(ctx, 'vwp')
         P = self.P
         CSS2 = self.info['consts']['CSS_LEVEL_2']
         C3 = self.info['consts']['CSS3_COLOR']
@@ -677,7 +718,7 @@ class C13(Check):
         return '\n'.join(rules)
 
     def corr_props_and_sheets(self, ctx):
-        rng = ctx.sub_rng('sheets')
+        rng = self.rng(ctx, 'sheets')
         sheets = [self.gen_sheet(rng) for _ in range(ctx.n(1200, 30000))]
         self.check_sheets(ctx, sheets, 'gen')
 
@@ -821,7 +862,7 @@ class C13(Check):
         return ''.join(chr(ord(c) + 32) if 'A' <= c <= 'Z' else c for c in s)
 
     def oracle_spelling_roundtrip_paths(self, ctx):
-        rng = ctx.sub_rng('spell')
+        rng = self.rng(ctx, 'spell')
         cu = self.cu
         lines, exp = [], []
         for _ in range(ctx.n(1200, 20000)):
@@ -845,6 +886,16 @@ class C13(Check):
                          kind='spelling:%s' % kind, sample={'css': css, 'impl': obs})
                 if base is None:
                     base = (css, obs)
+                    # the same objects, verdict read under other serializer preferences
+                    for label, setting in self.PREF_SETTINGS[1:]:
+                        with self.prefs(setting):
+                            with time_limit(10):
+                                v2 = [bool(p.valid) for p in ps]
+                        if v2 != [o[3] for o in obs]:
+                            ctx.violate('the verdict does not depend on the serializer preferences in effect when '
+                                        '`valid` is read', {'css': css, 'preferences': label},
+                                        {'default': [o[3] for o in obs], label: v2})
+                            break
                 elif obs != base[1]:
                     ctx.violate('the verdict and the value text (up to ASCII case) are the same for every spelling '
                                 '(case, comments, whitespace) of a value',
@@ -907,6 +958,203 @@ class C13(Check):
                     break
         self.compare(ctx, 'Property.valid of parsed spellings', lines, exp)
 
+    # -- oracle: every number form of the grammar, directly and through the DOM, under serializer preferences ----
+    PREF_SETTINGS = [('defaults', {}), ('omitLeadingZero', {'omitLeadingZero': True}), ('useMinified()', 'minified'),
+                     ('no spacers', {'listItemSpacer': '', 'propertyNameSpacer': '', 'omitLeadingZero': True,
+                                     'minimizeColorHash': False, 'keepComments': False})]
+    MAGNITUDES = ['0', '1', '7', '10', '007', '100', '.5', '0.5', '0.50', '00.5', '.25', '1.5', '1.50', '01.5', '.0',
+                  '0.0', '2.0', '10.00', '3.14159', '.999', '12.75']
+    BAD_MAGNITUDES = ['5.', '.', '1..2', '1.5.5', '1e3', '1,5', '. 5']
+    NUM_RE = r'[+-]?(?:[0-9]+|[0-9]*\.[0-9]+)'
+
+    def typed_member(self, types, kws, v):
+        """independent CSS 2.1 reading (4.3.1-4.3.3) of a single number / integer / length / percentage / keyword"""
+        f = self.fold(v)
+        if f in kws:
+            return True
+        t = types.upper()
+        if 'N' in t and re.fullmatch(self.NUM_RE, f):
+            return True
+        if 'I' in t and re.fullmatch(r'[+-]?[0-9]+', f):
+            return True
+        if 'P' in t and re.fullmatch(self.NUM_RE + '%', f):
+            return True
+        if 'L' in t and (re.fullmatch(self.NUM_RE + '(?:%s)' % '|'.join(UNITS), f)
+                         or re.fullmatch(r'[+-]?(?:0+|0*\.0+)', f)):
+            return True
+        return False
+
+    def number_known(self, name, types, v, expected, direct):
+        f = self.fold(v)
+        k = self.grammar_known(name, v, expected)
+        if k:
+            return k
+        if direct and expected and 'L' in types.upper() and 'N' not in types.upper() \
+                and re.fullmatch(r'[+-]?(?:0+|0*\.0+)', f) and f != '0':
+            return 'C13-unitless-zero-direct'
+        if not direct and not expected and 'L' not in types.upper() \
+                and re.fullmatch(r'[+-]?(?:0+|0*\.0+)(?:%s)' % '|'.join(UNITS), f):
+            return 'C13-normalised-number-forms'
+        if not direct and not expected and 'I' in types.upper() and 'N' not in types.upper() \
+                and 'L' not in types.upper() and re.fullmatch(r'[+-]?[0-9]*\.0+', f):
+            return 'C13-normalised-number-forms'
+        return None
+
+    def oracle_numbers_prefs(self, ctx):
+        rng = self.rng(ctx, 'numbers')
+        cu, P = self.cu, self.P
+        typed = {n: tk for n, tk in SINGLE_TYPE.items() if set(tk[0].upper()) & set('LPNI') and 'C' not in tk[0]
+                 and 'U' not in tk[0] and n != 'font-size'}
+        typed['opacity'] = ('N', ['inherit'])                       # CSS3 Color: <number> | inherit
+        lines, exp = [], []
+        full = {'width', 'line-height', 'orphans', 'opacity', 'text-indent', 'letter-spacing'}
+        for name, (types, kws) in sorted(typed.items()):
+            forms = []
+            for mag in self.MAGNITUDES + self.BAD_MAGNITUDES:
+                for sign in ('', '-', '+'):
+                    for suffix in [''] + ['%'] + [rng.choice(UNITS), rng.choice(UNITS).upper()]:
+                        forms.append(sign + mag + suffix)
+            if name not in full:
+                forms = rng.sample(forms, ctx.n(14, 120))
+            else:
+                forms = rng.sample(forms, ctx.n(90, len(forms)))
+            for v in forms:
+                expected = self.typed_member(types, kws, v)
+                w = {'property': name, 'value': v}
+                # (a) the registry asked directly
+                with time_limit(10):
+                    d1 = bool(P.validate(name, v))
+                    d2 = P.validateWithProfile(name, v)[:2]
+                ctx.case(key=('num-direct', name, v), nontrivial=expected, kind='numbers:direct:%s' % expected,
+                         sample={'validate': [name, v], 'css21': expected, 'impl': d1})
+                if d1 != expected or d2 != (expected, expected):
+                    ctx.violate('for single-type properties the verdict agrees with the CSS 2.1 grammar of numbers, '
+                                'lengths and percentages (cssutils.profile.validate called directly)',
+                                dict(w, call='cssutils.profile.validate'),
+                                {'validate': d1, 'validateWithProfile': list(d2), 'css21_grammar_member': expected},
+                                known=self.number_known(name, types, v, expected, True))
+                # (b) parsed and constructed; the verdict read under several serializer preferences
+                if not safe_value(v) or ' ' in v:
+                    continue
+                s = self.parse('a{%s:%s}' % (name, v))
+                ps = s.cssRules[0].style.getProperties(all=True) if s.cssRules.length else []
+                objs = [('parsed', ps[0] if ps else None, s)]
+                try:
+                    with time_limit(10):
+                        pc = cu.css.Property(name, v)
+                    objs.append(('Property()', pc if pc.wellformed else None, None))
+                except TimeLimit:
+                    raise
+                except Exception:
+                    objs.append(('Property()', None, None))
+                for how, p, sheet in objs:
+                    seen = []
+                    for label, setting in self.PREF_SETTINGS:
+                        with self.prefs(setting):
+                            with time_limit(10):
+                                got = bool(p.valid) if p is not None else False
+                                vt = p.value if p is not None else None
+                                sv = bool(sheet.valid) if sheet is not None and p is not None else got
+                        seen.append((label, got, sv, vt))
+                        ctx.case(key=('num', how, label, name, v), nontrivial=expected,
+                                 kind='numbers:%s:%s' % (how, label))
+                        if p is not None:
+                            lines.append('prop N 0 %s %s %s' % (enc(p.name), enc(vt), enc(p.priority)))
+                            exp.append((name, v, how, label, 'ok %d' % got))
+                    verdicts = {(g, sv) for _, g, sv, _ in seen}
+                    if len(verdicts) > 1:
+                        ctx.violate('the verdict does not depend on the serializer preferences in effect when '
+                                    '`valid` is read', dict(w, how=how, css='a{%s:%s}' % (name, v)),
+                                    {'by_preferences': [list(x) for x in seen], 'css21_grammar_member': expected})
+                    elif p is not None and seen[0][1] != expected:
+                        ctx.violate('for single-type properties the verdict agrees with the CSS 2.1 grammar of '
+                                    'numbers, lengths and percentages, for every spelling of the number',
+                                    dict(w, how=how, css='a{%s:%s}' % (name, v)),
+                                    {'valid': seen[0][1], 'value_text': seen[0][3], 'css21_grammar_member': expected},
+                                    known=self.number_known(name, types, v, expected, False))
+        self.compare(ctx, 'Property.valid under serializer preferences', lines, exp)
+
+    # -- oracle: Property objects handed from one block to another --------------------------------------
+    CONTEXTS = {'style': 'a{color:red}', 'fontface': '@font-face{font-family:x;src:url(x)}'}
+
+    def oracle_moved_properties(self, ctx):
+        """a Property object created stand-alone, in a detached declaration, in a style rule or in @font-face and
+        then given to another block with setProperty(prop): its verdict there is the verdict of the same
+        declaration parsed in that place, and survives serialise -> reparse"""
+        rng = self.rng(ctx, 'moved')
+        cu = self.cu
+        ffnames = ['font-style', 'font-weight', 'font-stretch', 'font-family', 'src', 'unicode-range']
+        for _ in range(ctx.n(260, 5000)):
+            r = rng.random()
+            name = rng.choice(ffnames) if r < 0.6 else rng.choice(self.names)
+            v, kind = self.value_for(name, rng, own=0.8)
+            v = ' '.join(v.split())
+            if not v or not safe_value(v):
+                v = rng.choice(['inherit', 'normal', 'bold', 'bolder', 'wider', 'condensed', 'x', '400'])
+            src = rng.choice(['standalone', 'declaration', 'style', 'fontface'])
+            dst = rng.choice([d for d in ('style', 'fontface') if d != src])
+            replace = rng.random() < 0.8
+            w = {'move': [src, dst], 'name': name, 'value': v, 'replace': replace}
+            try:
+                obs = self.move_case(src, dst, name, v, replace)
+            except TimeLimit:
+                raise
+            except Exception as e:
+                ctx.count('moved-exception:' + type(e).__name__)
+                continue
+            if obs is None:
+                continue
+            moved, after, fresh, text = obs
+            ctx.case(key=('moved', src, dst, name, v, replace), nontrivial=moved[0] is True or fresh[0] is True,
+                     kind='moved:%s>%s' % (src, dst), sample={'move': w, 'impl': moved})
+            if moved != after:
+                ctx.violate('the verdict is the same before and after a serialise/reparse round trip, however the '
+                            'property came to exist (Property object handed to another block)',
+                            w, {'(declaration, rule, sheet).valid': moved, 'after_reparse': after, 'serialised': text})
+            elif fresh[0] is not None and moved != fresh:      # (a declaration the parser drops is C02's subject)
+                ctx.violate('the verdict does not depend on how the property came to exist '
+                            '(Property object handed to another block vs. the same declaration parsed there)',
+                            w, {'(declaration, rule, sheet).valid': moved, 'parsed_in_place': fresh})
+
+    def move_case(self, src, dst, name, v, replace):
+        cu = self.cu
+        with time_limit(20):
+            if src == 'standalone':
+                p = cu.css.Property(name, v)
+            else:
+                if src == 'declaration':
+                    st = cu.css.CSSStyleDeclaration()
+                else:
+                    st = cu.parseString(self.CONTEXTS[src]).cssRules[0].style
+                st.setProperty(name, v)
+                p = st.getProperty(name)
+                if p is None:
+                    return None
+                st.removeProperty(name)
+            if not p.wellformed:
+                return None
+            sheet = cu.parseString(self.CONTEXTS[dst])
+            style = sheet.cssRules[0].style
+            had = style.getProperty(name) is not None
+            style.setProperty(p, replace=replace)
+
+            def observe(sh):
+                rule = sh.cssRules[0]
+                q = rule.style.getProperty(name)
+                return (None if q is None else bool(q.valid), bool(rule.valid), bool(sh.valid),
+                        [bool(x.valid) for x in rule.style.getProperties(all=True)])
+            moved = observe(sheet)
+            text = sheet.cssText
+            text = text.decode('utf-8') if isinstance(text, bytes) else text
+            after = observe(cu.parseString(text))
+            # the same declaration written into the source text of the destination
+            body = self.CONTEXTS[dst]
+            if had and replace:
+                fresh = after           # an existing entry was updated in place: compared with the round trip only
+            else:
+                fresh = observe(cu.parseString(body[:-1] + ';%s: %s\n}' % (name, v)))
+        return moved, after, fresh, text
+
     # -- oracle: CSS 2.1 reference grammars ------------------------------------------------------------
     def grammar_known(self, name, value_src, expected):
         """region predicates of the table-level known findings; value_src = the source text of the value"""
@@ -926,7 +1174,7 @@ class C13(Check):
         return None
 
     def oracle_grammar(self, ctx):
-        rng = ctx.sub_rng('grammar')
+        rng = self.rng(ctx, 'grammar')
         cases = []
         # keyword lists: every keyword of every list against every keyword-list property (exhaustive), in 2 cases
         allkw = sorted({k for ks in self.kwspec.values() for k in ks} | {'run-in', 'auto', 'normal', 'x', 'red'})
@@ -1003,7 +1251,7 @@ class C13(Check):
         return out
 
     def oracle_annotates(self, ctx):
-        rng = ctx.sub_rng('annot')
+        rng = self.rng(ctx, 'annot')
         cu = self.cu
         for _ in range(ctx.n(400, 8000)):
             css = self.gen_sheet(rng)
@@ -1087,7 +1335,7 @@ class C13(Check):
 
     # -- validOnly: the one documented way in which validation reaches the output ------------------------
     def corr_valid_only(self, ctx):
-        rng = ctx.sub_rng('validonly')
+        rng = self.rng(ctx, 'validonly')
         cu = self.cu
         lines, exp = [], []
         prefs = cu.ser.prefs
@@ -1140,7 +1388,7 @@ class C13(Check):
     def oracle_unicode_fold(self, ctx):
         """keywords with U+212A/U+017F/U+0131/U+0130 for k/s/i, integers and lengths with non-ASCII decimal digits:
         CSS 2.1 keywords are ASCII case-insensitive and numbers are ASCII digits, so none of these is a member"""
-        rng = ctx.sub_rng('ufold')
+        rng = self.rng(ctx, 'ufold')
         sub = {'k': '\u212a', 's': '\u017f', 'i': '\u0131', 'I': '\u0130', 'K': '\u212a', 'S': '\u017f'}
         cases = []
         for name, kws in sorted(self.kwspec.items()):
@@ -1184,6 +1432,8 @@ class C13(Check):
         if not hasattr(self, 'cu'):
             self.setup(ctx)
         w = finding['witness']['data']
+        if 'call' in w:
+            return bool(self.P.validate(w['name'], w['value'])) != w['css21_grammar_member']
         if 'css' in w and finding['id'].startswith('C13-valid'):
             s = self.parse(w['css'])
             props = []
@@ -1203,6 +1453,37 @@ class C13(Check):
         clause = data.get('clause') or ''
         if data.get('kind') != 'impl-violates':
             self.run(ctx)
+        elif 'move' in w:
+            obs = self.move_case(w['move'][0], w['move'][1], w['name'], w['value'], w.get('replace', True))
+            if obs is not None and (obs[0] != obs[1] or (obs[2][0] is not None and obs[0] != obs[2])):
+                ctx.violate(clause, w, {'moved': obs[0], 'after_reparse': obs[1], 'parsed_in_place': obs[2]})
+        elif w.get('call') == 'cssutils.profile.validate':
+            got = bool(self.P.validate(w['property'], w['value']))
+            if got != det.get('css21_grammar_member'):
+                ctx.violate(clause, w, {'validate': got})
+        elif 'how' in w and 'css' in w:
+            s = self.parse(w['css'])
+            ps = s.cssRules[0].style.getProperties(all=True) if s.cssRules.length else []
+            p = ps[0] if ps else None
+            if w['how'] == 'Property()':
+                p = self.cu.css.Property(w['property'], w['value'])
+                p = p if p.wellformed else None
+            seen = []
+            for label, setting in self.PREF_SETTINGS:
+                with self.prefs(setting):
+                    seen.append((label, bool(p.valid) if p is not None else False, p.value if p is not None else None))
+            if len({g for _, g, _ in seen}) > 1 or seen[0][1] != det.get('css21_grammar_member', seen[0][1]):
+                ctx.violate(clause, w, {'by_preferences': [list(x) for x in seen]})
+        elif 'preferences' in w:
+            s = self.parse(w['css'])
+            ps = [p for r in s if hasattr(r, 'style') for p in r.style.getProperties(all=True)]
+            base = [bool(p.valid) for p in ps]
+            for label, setting in self.PREF_SETTINGS[1:]:
+                with self.prefs(setting):
+                    v2 = [bool(p.valid) for p in ps]
+                if v2 != base:
+                    ctx.violate(clause, w, {'default': base, label: v2})
+                    break
         elif 'css_a' in w:
             a = self.parse(w['css_a'])
             b = self.parse(w['css_b'])
